@@ -43,6 +43,8 @@ structure TimingObs where
   ret : Nat           -- ms
   removed : Bool
   conns : List TimingConn
+  flagKept : Bool := true                  -- the caller's stop flag still reads as the caller left it
+  twin : Option (String × Nat) := none     -- a second listener sharing the flag: (result, ms)
 
 structure TimingCase where
   idle : Nat
@@ -58,6 +60,10 @@ def P_C15_timing (c : TimingCase) (o : TimingObs) : Verdict :=
   let served := o.conns.filter (·.gotFirst)
   if o.result == "err" then some "listen-returned-an-unexpected-error"
   else if !o.removed then some "socket-path-not-removed"
+  else if !o.flagKept then some "listen-changed-the-callers-stop-flag"
+  else if (match o.twin, c.stopAt with
+      | some (r, t), some s => r != "ok" || t > s + 100 + 400
+      | _, _ => false) then some "another-listener-sharing-the-stop-flag-did-not-stop"
   else if served.any (fun k => !k.complete) then some "accepted-connection-not-served-to-completion"
   else if served.any (fun k => k.closed > o.ret + slack) then some "returned-while-a-connection-was-still-being-served"
   -- a connection that was never served may only be one still waiting in the kernel's backlog when the
